@@ -22,6 +22,7 @@ package os
 //@ ensures len(elem) == 2 ==> result == uf("join2", string, elem[0], elem[1])
 //@ ensures len(elem) == 2 && noDD(elem[1]) && isclean(elem[0]) && elem[0] != "" && elem[0] != "/" ==> within(elem[0], result)
 //@ ensures result == "" || isclean(result)
+//@ ensures len(elem) == 2 ==> forallT(s, FS, routed(s, elem[0]) ==> routed(s, result))
 
 //@ external path/filepath.IsAbs
 //@ ensures result == prefixof("/", path)
@@ -124,6 +125,9 @@ package os
 //@ func (*VirtualOS).MkdirAll
 //@ props C13
 //@ requires vosInv(osObj)
+// MkdirTemp creates the directory below the temp directory's path inside the mount findMount returned (KF-23
+// fixed). Assumed (stated with filepath.Join): a path built by joining a name onto a routed directory of a mount
+// source is routed to that source (a deeper mount shadowing the new name is not modelled).
 //@ func (*VirtualOS).MkdirTemp
 //@ props C13
 //@ requires vosInv(osObj)
